@@ -668,6 +668,8 @@ func (c *SpecCtx) call(e *SExpr) *Val {
 		return &Val{T: ts.Not(ts.Eq(v, ts.IntLit(0))), GT: boolT}
 	case "maxalloc":
 		return &Val{T: X.heap(c.state(), "GM|maxalloc", SInt), GT: intT}
+	case "maxmake":
+		return &Val{T: X.heap(c.state(), "GM|maxmake", SInt), GT: intT}
 	case "min", "max":
 		a, b := c.eval(e.Args[0]), c.eval(e.Args[1])
 		if e.Name == "min" {
